@@ -19,6 +19,10 @@ def parseOp (s : String) : Option IOp :=
   | ["count"] => some .count
   | ["last"] => some .last
   | ["debug"] => some .debug
+  | ["fold!"] => some .foldSelf
+  | ["rfold!"] => some .rfoldSelf
+  | ["count!"] => some .countSelf
+  | ["last!"] => some .lastSelf
   | _ => none
 
 def showOut : IOut → String
